@@ -214,15 +214,16 @@ Definition has_length (m : Z) : bool := negb ((m =? M_SOI) || (m =? M_EOI) || is
 
 (* ---------- sample reconstruction, shared by both decoders ---------- *)
 (* Decode category, receive the difference, add the prediction, wrap ONCE by 2^P *)
+Definition recon (modulus px diff : Z) : Z :=
+  let s := px + diff in
+  if s <? 0 then s + modulus else if modulus <=? s then s - modulus else s.
 Definition dec_sample (t : htable) (modulus px : Z) (st : rstate) : option (Z * rstate) :=
   match huff_decode t st with
   | None => None
   | Some (cat, st1) =>
     match (if 0 <? cat then receive_lossless st1 cat else Some (0, st1)) with
     | None => None
-    | Some (diff, st2) =>
-      let s := px + diff in
-      Some (if s <? 0 then s + modulus else if modulus <=? s then s - modulus else s, st2)
+    | Some (diff, st2) => Some (recon modulus px diff, st2)
     end
   end.
 
